@@ -106,6 +106,11 @@ let dispatch (cmd : string) (args : sx list) : sx =
   | "validate_M", [st; e; ms] -> let st = settings_ st and e = existence_ e in
       w_list (fun m -> w_bool (validate st e (list_ (list_ nat_) m))) (lst ms)
   | "max_conn_mat", [st; e] -> w_matrix (max_conn_mat (settings_ st) (existence_ e))
+  | "restrict_rows", [sel; i; v; rows] ->
+      w_list (w_list w_z) (restrict_rows (bool_ sel) (nat_ i) (z_ v) (list_ (list_ z_) rows))
+  | "arun", [alias; ops] ->
+      let op_ x = match lst x with [A "d"; k] -> ADecode (nat_ k) | [A "m"; k; v] -> AMutate (nat_ k, nat_ v) | _ -> failwith "aop" in
+      let (_, outs) = arun (bool_ alias) ainit (list_ op_ ops) in w_list (w_opt w_nat) outs
   | _ -> Dispatch2.dispatch cmd args
 
 let () =
